@@ -29,11 +29,15 @@ def gen_tree(e, depth, width, counter, allow_none=True):
     n = e.choose(width + 1, 'n')
     members = []
     for _ in range(n):
-        opts = ['atom'] + (['none'] if allow_none else []) + (['nested'] if depth > 1 else [])
+        # present optional members (add_option(Some(..)) of an expression / of a group) where absent ones are allowed
+        opts = ['atom'] + (['none', 'optatom'] if allow_none else []) + (['nested'] if depth > 1 else []) + (['optnested'] if depth > 1 and allow_none else [])
         o = opts[e.choose(len(opts), 'member')]
         if o == 'atom':
             members.append(atom_expr(counter[0] % NATOMS)); counter[0] += 1
+        elif o == 'optatom':
+            members.append(['opt', atom_expr(counter[0] % NATOMS)]); counter[0] += 1
         elif o == 'none': members.append(None)
+        elif o == 'optnested': members.append(['optg', gen_tree(e, depth - 1, width, counter, allow_none == 'all')])
         else: members.append(gen_tree(e, depth - 1, width, counter, allow_none == 'all'))
     return [kind, neg, members]
 
@@ -48,7 +52,7 @@ def atom_val(i): return (z3.Bool('t%d' % i), z3.Bool('f%d' % i))
 
 def spec_tree(t):
     if t[0] in ('any', 'all'):
-        ms = [spec_tree(m) for m in t[2] if m is not None]
+        ms = [spec_tree(m[1] if m[0] in ('opt', 'optg') else m) for m in t[2] if m is not None]
         v = k_or(ms) if t[0] == 'any' else k_and(ms)
         return k_not(v) if t[1] else v
     return atom_of_expr(t)
@@ -177,7 +181,7 @@ def conc_eval(p, asg):
 def conc_spec(t, asg):
     def val(x): return {'TRUE': True, 'FALSE': False, 'NULL': None}[asg[x]]
     if t[0] in ('any', 'all'):
-        ms = [conc_spec(m, asg) for m in t[2] if m is not None]
+        ms = [conc_spec(m[1] if m[0] in ('opt', 'optg') else m, asg) for m in t[2] if m is not None]
         if t[0] == 'any': v = True if True in ms else (None if None in ms else False)
         else: v = False if False in ms else (None if None in ms else True)
         return (None if v is None else (not v)) if t[1] else v
@@ -271,6 +275,7 @@ def run(ctx):
 def shape_key(st):
     def sk(t):
         if t is None: return '-'
+        if t[0] in ('opt', 'optg'): return '?' + sk(t[1])
         if t[0] in ('any', 'all'): return ('!' if t[1] else '') + t[0] + '[' + ','.join(sk(m) for m in t[2]) + ']'
         return 'a'
     parts = []
